@@ -113,8 +113,11 @@ def main():
         if a.tier == 'thorough': units.append((kind, 4, 1, 'float64'))
     def work(sub, kind, K, W, prec): sub.notes.append('paths %s K=%d W=%d: %s' % (kind, K, W, metric_case(u, sub, kind, K, W, prec, timeout)))
     P.run_units(rep, work, units)
+    # the value classes themselves when they are chosen automatically (contract shared with C12): every value of the first batch is a class
+    from props import c12 as C12_
+    for dt in ('uint8', 'uint16'): C12_.auto_set(u, rep, dt, timeout)
     rep.cover('paths with an empty class were explored', any('.' in o['name'].split('classes ')[-1][:5] for o in rep.obls if 'classes ' in o['name']))
-    rc, o, so, se = R.run_native('props.c04_native', ['bounded', str(seed), a.tier], timeout=1500)
+    rc, o, so, se = R.run_native('props.c04_native', ['bounded', str(seed), a.tier], timeout=3600)
     if o is None: rep.errors.append('native stand-in failed: %s %s' % (so[-400:], se[-900:]))
     else:
         rep.bounded.append(dict(function='ANOVA / NICV / SNR distinguishers end to end vs exact rational definitions under /venv/bin/python', bound=o['bound'], evaluations=o['evaluations'], distinct=o['evaluations'], exhaustive=False, failures=o['failures']))
